@@ -206,13 +206,22 @@ func VerifH_C19_IndexCommand() {
 	if codec == "none" && vChoose("v1out", 2) == 1 {
 		version = "1"
 	}
+	// the destination is absent, or an unrelated file longer than anything the command writes
+	staleDest := vChoose("existingLongerDestination", 2) == 1
+	if staleDest {
+		vFSWriteFile(outPath, vBytes("old", 400))
+	}
 	var out bytes.Buffer
 	err := IndexCar(vCtx(&out, map[string]string{"codec": codec, "version": version}, inPath, outPath))
 	vAssert("index-ok", err == nil)
 	got, ok := vFSReadFile(outPath)
 	vAssert("output-written", ok)
 	vAssert("payload-unchanged", vBytesEq(vPayloadOf(got), vPayloadOf(in)))
+	if version == "1" {
+		vAssert("v1-output-is-exactly-the-payload", vBytesEq(got, vPayloadOf(in)))
+	}
 	vAcceptedByInspectAndVerify("", outPath, got, true)
+	vCover("replaced-longer-destination", staleDest && version == "1")
 	if version == "2" && codec != "none" {
 		rd, _ := carv2.NewReader(bytes.NewReader(got))
 		ir, ierr := rd.IndexReader()
